@@ -12,6 +12,40 @@ pub fn norm_ty(t: &syn::Type) -> String {
     norm_tokens(&t.to_token_stream())
 }
 
+/// the outermost type constructor of a type (path without generic arguments)
+/// and the constructor of its first generic argument: strings are atomic for
+/// TLC, so the structure it needs is projected here
+pub fn ty_heads(t: &syn::Type) -> (String, String) {
+    fn head(t: &syn::Type) -> (String, Option<syn::Type>) {
+        match t {
+            syn::Type::Path(p) => {
+                let mut segs = Vec::new();
+                let mut arg = None;
+                for seg in &p.path.segments {
+                    segs.push(seg.ident.to_string());
+                    if let syn::PathArguments::AngleBracketed(a) = &seg.arguments {
+                        for ga in &a.args {
+                            if let syn::GenericArgument::Type(t) = ga {
+                                if arg.is_none() {
+                                    arg = Some(t.clone());
+                                }
+                            }
+                        }
+                    }
+                }
+                let lead = if p.path.leading_colon.is_some() { "::" } else { "" };
+                (format!("{}{}", lead, segs.join("::")), arg)
+            }
+            syn::Type::Tuple(_) => ("(tuple)".to_string(), None),
+            syn::Type::Array(_) => ("[array]".to_string(), None),
+            _ => ("?".to_string(), None),
+        }
+    }
+    let (h1, a) = head(t);
+    let h2 = a.map(|t| head(&t).0).unwrap_or_default();
+    (h1, h2)
+}
+
 fn vis(v: &syn::Visibility) -> &'static str {
     match v {
         syn::Visibility::Public(_) => "pub",
@@ -86,9 +120,12 @@ fn fields(fs: &syn::Fields) -> (String, Vec<Value>) {
                     let wire = serde_get(&serde, "rename").unwrap_or_else(|| {
                         id.strip_prefix("r#").map(|s| s.to_string()).unwrap_or(id.clone())
                     });
+                    let (h1, h2) = ty_heads(&f.ty);
                     json!({
                         "name": id,
                         "wire": wire,
+                        "head": h1,
+                        "head2": h2,
                         "ty": norm_ty(&f.ty),
                         "vis": vis(&f.vis),
                         "serde": serde,
@@ -106,9 +143,12 @@ fn fields(fs: &syn::Fields) -> (String, Vec<Value>) {
                 .enumerate()
                 .map(|(i, f)| {
                     let (_, serde, _) = attrs(&f.attrs);
+                    let (h1, h2) = ty_heads(&f.ty);
                     json!({
                         "name": i.to_string(),
                         "wire": i.to_string(),
+                        "head": h1,
+                        "head2": h2,
                         "ty": norm_ty(&f.ty),
                         "vis": vis(&f.vis),
                         "serde": serde,
